@@ -354,7 +354,7 @@ func init() {
 // ---- generators
 
 var c07Names = []string{"a", "b", "k1", "PeterNeumann", "sum.golang.org", "é", "世界", "x/y", "—", "a=b"}
-var c07BadNames = []string{"", "a b", "a+b", "a b", "a\xffb", "a\nb", "a ", "\t", "a　", "+", "a\u0085", "\xed\xa0\x80"}
+var c07BadNames = []string{"a\x01", "\x00", "a\x1f", "\x0e", "a\x7f", "\x7f", "a\x08b", "", "a b", "a+b", "a b", "a\xffb", "a\nb", "a ", "\t", "a　", "+", "a\u0085", "\xed\xa0\x80"}
 var c07Hashes = []uint32{0, 1, 0x01020304, 0xffffffff, 0x0a0a0a0a, 0x2b2b2b2b, 0x80000000, 12345}
 
 var c07Pieces = []string{"a", "b", "hello", "go.sum database tree", "123", " ", "  ", "\n", "\n", "\n\n", "— ", "—", "é", "世界", "+", "=", "A1/", "x y",
